@@ -39,14 +39,14 @@ func newPathExactMatcher(p string, caseInsensitive bool) *pathExactMatcher {
 		caseInsensitive: caseInsensitive,
 	}
 	if caseInsensitive {
-		ret.fullPath = strings.ToUpper(p)
+		ret.fullPath = asciiToUpper(p)
 	}
 	return ret
 }
 
 func (pem *pathExactMatcher) match(path string) bool {
 	if pem.caseInsensitive {
-		return pem.fullPath == strings.ToUpper(path)
+		return pem.fullPath == asciiToUpper(path)
 	}
 	return pem.fullPath == path
 }
@@ -67,14 +67,14 @@ func newPathPrefixMatcher(p string, caseInsensitive bool) *pathPrefixMatcher {
 		caseInsensitive: caseInsensitive,
 	}
 	if caseInsensitive {
-		ret.prefix = strings.ToUpper(p)
+		ret.prefix = asciiToUpper(p)
 	}
 	return ret
 }
 
 func (ppm *pathPrefixMatcher) match(path string) bool {
 	if ppm.caseInsensitive {
-		return strings.HasPrefix(strings.ToUpper(path), ppm.prefix)
+		return strings.HasPrefix(asciiToUpper(path), ppm.prefix)
 	}
 	return strings.HasPrefix(path, ppm.prefix)
 }
@@ -97,4 +97,17 @@ func (prm *pathRegexMatcher) match(path string) bool {
 
 func (prm *pathRegexMatcher) String() string {
 	return "pathRegex:" + prm.re.String()
+}
+
+// asciiToUpper upper-cases ASCII letters only: case-insensitive path matching
+// must not treat non-ASCII characters whose Unicode upper-case form is an
+// ASCII letter (e.g. U+017F) as equal to that letter.
+func asciiToUpper(s string) string {
+	b := []byte(s)
+	for i, c := range b {
+		if c >= 'a' && c <= 'z' {
+			b[i] = c - ('a' - 'A')
+		}
+	}
+	return string(b)
 }
